@@ -253,3 +253,28 @@ func HarnessC20Sections() {
 	bv, isB := gb["flag"].(bool)
 	verifrt.Assert(isB && bv, "boolean value of the second section changed")
 }
+
+// HarnessC20HeaderComment: blanks and a comment after a section header do not change what is parsed: the keys that
+// follow land in that section with their values.
+func HarnessC20HeaderComment() {
+	pads := []string{"", " ", "\t", "  "}
+	pad := pads[verifrt.Choice("pad", len(pads))]
+	n := verifrt.Choice("clen", 3)
+	c := verifrt.String("comment", n)
+	zzASCII(c)
+	for i := 0; i < len(c); i++ {
+		verifrt.Assume(c[i] != '\n' && c[i] != '\r')
+	}
+	withComment := verifrt.Choice("withc", 2) == 1
+	header := "[build]" + pad
+	if withComment {
+		header += "#" + c
+	}
+	data, err := zzParse(header + "\nk = 5\nname = \"x\"\n")
+	verifrt.Assert(err == nil, "a comment or blanks after a section header make the parser fail")
+	if err != nil {
+		return
+	}
+	v, ok := data["build"]["k"].(int)
+	verifrt.Assert(ok && v == 5 && len(data) == 1, "a comment or blanks after a section header change the parsed values")
+}
